@@ -25,6 +25,7 @@
                     (truth table of the isinstance condition over the element classes), mirror images; find_first/last_node.
  Ru units         : lengths configured with a unit entry are only used through convert_length(value, same record's length_units).
  Rv verbose       : blocks guarded by the verbose flag only report; the design does not depend on the logging flag.
+ Re for-each      : loops that act on every item are never left early (break / return).
 """
 import ast
 
@@ -492,6 +493,15 @@ def rv_verbose(ctx):
     ctx.need('Rv.verbose-pure', 5)
 
 
+def re_foreach(ctx):
+    """Re: loops that act on EVERY item (store on the item / call a function that writes it) are never left early (break / return):
+    the items after the exit would silently be skipped; the two search loops of the package are a frozen table"""
+    from .common import foreach_rule
+    from ..memo import scope_funcs
+    foreach_rule(ctx, 'Re.for-each', scope_funcs(ctx.repo, 'C08'), 'elements later in the list stay un-designed (no padding, no split, no amplifier)')
+    ctx.need('Re.for-each', 3)
+
+
 from ..memo import rule_for as _memo_rule
 
 RULES_MEMO = ('Rm.memo', _memo_rule('C08', 'a structural decision taken for another element would be reused'))
@@ -502,4 +512,4 @@ from ..presence import rule_for as _presence_rule
 RULES_PRESENCE = ('Rp.presence', _presence_rule('C08', 'a legal zero would be read as missing'))
 
 RULES = [('R1.surgery', r1_surgery), ('R2.edge-weight', r2_weights), ('R3.completeness', r3_completeness), ('R4.split', r4_split),
-         ('R5.order', r5_order), ('R6.every-oms', r6_every_oms), RULES_MEMO, RULES_PRESENCE, ('R7.span-walk', r7_span_walk), ('Ru.units', ru_units), ('Rv.verbose-pure', rv_verbose)]
+         ('R5.order', r5_order), ('R6.every-oms', r6_every_oms), RULES_MEMO, RULES_PRESENCE, ('R7.span-walk', r7_span_walk), ('Ru.units', ru_units), ('Rv.verbose-pure', rv_verbose), ('Re.for-each', re_foreach)]
